@@ -333,10 +333,10 @@ def _cmps_(i, fmap, l):
     counter = cx if i.misc["adrsz"] else ecx
     dst = fmap(mem(edi, l * 8))
     src = fmap(mem(esi, l * 8))
-    x, carry, overflow = SubWithBorrow(dst, src)
+    x, carry, overflow = SubWithBorrow(src, dst)
     if i.misc["rep"]:
         cnt = fmap(counter)
-        fmap[af] = tst(cnt == 0, fmap(af), halfborrow(dst, src))
+        fmap[af] = tst(cnt == 0, fmap(af), halfborrow(src, dst))
         fmap[pf] = tst(cnt == 0, fmap(pf), parity8(x[0:8]))
         fmap[zf] = tst(cnt == 0, fmap(zf), x == 0)
         fmap[sf] = tst(cnt == 0, fmap(sf), x < 0)
@@ -345,7 +345,7 @@ def _cmps_(i, fmap, l):
         fmap[eip] = tst(cnt == 0, fmap[eip] + i.length, fmap[eip])
         fmap[counter] = tst(cnt == 0, cnt, cnt - 1)
     else:
-        fmap[af] = halfborrow(dst, src)
+        fmap[af] = halfborrow(src, dst)
         fmap[pf] = parity8(x[0:8])
         fmap[zf] = x == 0
         fmap[sf] = x < 0
